@@ -31,6 +31,7 @@ func init() {
 			// the reference model is a Go map, which has the same semantics
 			c14eng(seq.KeyDom[float64]{Name: "float64", Pool: []float64{0, 1.5, -2, math.NaN(), math.Inf(1)}, Str: func(k float64) string { return fmt.Sprint(k) }}, 20000, 300000),
 			c14eng(seq.KeyDom[any]{Name: "any", Pool: []any{1, "1", true, nil, 2.5, 'x', "a"}, Str: func(k any) string { return fmt.Sprintf("%#v", k) }}, 40000, 600000),
+			{Name: "map/large", Count: core.FixedCount(250, 4000), CPULimit: 120, Run: func(c *core.Ctx, idx int) { seq.RunC03Large(c, false) }},
 		},
 		Repro: map[string]func() (bool, string){"c14.removeall-nan": seq.ReproMapRemoveAllNaN},
 	})
